@@ -85,3 +85,27 @@ theorem collect_eq_none_of_mem (buf : List (Option β)) (h : none ∈ buf) : col
 end PMap
 
 end Resume
+
+/-! Definitional restatements used by the theorems of `Props/C17.lean` (kept here so that they do not count as
+property theorems). -/
+namespace C17
+open Resume
+
+theorem run_zero {S B : Type} (r : Run S B) (s : S) : run r 0 s = s := rfl
+
+theorem run_succ {S B : Type} (r : Run S B) (n : Nat) (s : S) : run r (n + 1) s = run r n (r.step s) := rfl
+
+/-- Two executions of the same run from equal states agree after every number of generations. -/
+theorem deterministic_state {S B : Type} (r : Run S B) (n : Nat) (s₁ s₂ : S) (h : s₁ = s₂) :
+    run r n s₁ = run r n s₂ := by rw [h]
+
+/-- A mapper that returns `map f xs` gives the evaluated population `[(x, f x)]`. -/
+theorem evalStep_eq {α β : Type} (mapper : (α → β) → List α → List β) (f : α → β) (pop : List α)
+    (h : mapper f pop = pop.map f) : evalStep mapper f pop = pop.map (fun x => (x, f x)) := by
+  rw [evalStep, h]
+  clear h
+  induction pop with
+  | nil => rfl
+  | cons x xs ih => simp [ih]
+
+end C17
